@@ -10,7 +10,8 @@
 EXTENDS Integers, Sequences, FiniteSets, TLC, Json, IOUtils, SequencesExt
 
 CONSTANTS Dates, Places, Frames, Deviations, MaxOps
-None == "None"
+None == "None"           \* date=None: keep the object's date
+Omitted == "omitted"     \* the date argument left out of a query: the documented default is today
 Today == "today"
 ModelOf(d) == d            \* each abstract date stands for one model epoch (dates are chosen one per file, plus today)
 
@@ -26,7 +27,7 @@ vars == <<objdate, frame, loaded, scaled, served, want, ops>>
 Nothing == << "nothing" >>
 Init == objdate = "none" /\ frame = "none" /\ loaded = "none" /\ scaled = 0 /\ served = Nothing /\ want = Nothing /\ ops = 0
 
-Resolve(d, cur) == IF d = None THEN cur ELSE d
+Resolve(d, cur) == IF d = None THEN cur ELSE IF d = Omitted THEN Today ELSE d
 (* evaluation of the field at place p for the object's date: reload (scaled := 0) then scale once *)
 Evaluate(d, p, f, reload) ==
     /\ loaded' = IF reload THEN d ELSE loaded
@@ -54,7 +55,7 @@ Query(d, p) ==
 Read == objdate # "none" /\ UNCHANGED <<objdate, frame, loaded, scaled, served, want>> /\ ops' = ops + 1
 
 Next == \/ \E d \in Dates \cup {None}, p \in Places, f \in Frames : Construct(d, p, f)
-        \/ \E d \in Dates \cup {None}, p \in Places : Query(d, p)
+        \/ \E d \in Dates \cup {None, Omitted}, p \in Places : Query(d, p)
         \/ Read
 Spec == Init /\ [][Next]_vars
 Bound == ops < MaxOps
